@@ -536,23 +536,45 @@ func (h *hist) genOp(r *vh.Rng, nextName *int) opDesc {
 			*nextName++
 			return genCreate(r, *nextName)
 		case k < 75:
-			// attach a detached root somewhere outside its own tree
+			// attach a detached root somewhere outside its own tree; half of the time below a
+			// node that already has children, so that child lists get long
 			if len(h.roots) == 0 {
 				continue
 			}
 			n := h.roots[r.Pick(len(h.roots))]
 			p := live[r.Pick(len(live))]
+			if r.Chance(0.5) {
+				var busy []int
+				for _, x := range live {
+					if len(h.kids[x]) > 0 {
+						busy = append(busy, x)
+					}
+				}
+				if len(busy) > 0 {
+					p = busy[r.Pick(len(busy))]
+				}
+			}
 			o := opDesc{Op: "add", P: p, N: n}
 			if h.valid(o) {
 				return o
 			}
 		default:
-			n := live[r.Pick(len(live))]
-			// prefer attached nodes, so that all four unlink cases are frequent
-			if h.parent[n] == 0 && r.Chance(0.6) {
-				continue
+			// pick the kind of removal first, then a node of that kind: all four unlink cases
+			// and roots with and without children are about equally frequent
+			want := []string{"first-child", "middle-child", "last-child", "only-child", "root-with-children", "root-leaf"}[r.Pick(6)]
+			var cands []int
+			for _, x := range live {
+				if h.removalKind(x) == want {
+					cands = append(cands, x)
+				}
 			}
-			return opDesc{Op: "remove", N: n}
+			if len(cands) == 0 {
+				if r.Chance(0.5) {
+					continue
+				}
+				cands = live
+			}
+			return opDesc{Op: "remove", N: cands[r.Pick(len(cands))]}
 		}
 	}
 	*nextName++
